@@ -9,13 +9,14 @@ BOUNDS = {
              '(also at target and former-output positions); foreign files planted by mutations inside created '
              'directories (o/z, o/d/z) and next to the cache (c/z); histories B.M.B, B.M.C, B.M.F, B.B (file<->dir swap); a foreign file appearing '
              'while the second build runs (at a symbolic point between two calls of the user program, families A8c and A4 on B.B); '
-             'snapshot (inode, content id, mtime) of everything outside the managed set before/after every API call plus an '
+             'two builds with overlapping lifetimes in one process (a second build on its own cache started inside the first, which '
+             'overwrote a foreign file and then raises); snapshot (inode, content id, mtime) of everything outside the managed set before/after every API call plus an '
              'allow-list over every mutating system call the library makes',
     'thorough': 'wider holes, skeleton set B, histories of 4-5 steps',
 }
 ASSUMPTIONS = ['managed set = cache file + paths passed to build_file in this build + outputs recorded by the previous commit '
                '(computed from the program and the reference model, never from the library bookkeeping)']
-WITNESSES = {'quick': ['build-raised', 'clean-with-cache', 'planted-during-build'], 'thorough': ['clean-with-cache']}
+WITNESSES = {'quick': ['build-raised', 'clean-with-cache', 'planted-during-build', 'nested-build-overlapped'], 'thorough': ['clean-with-cache']}
 
 
 def families(tier):
@@ -42,6 +43,7 @@ def families(tier):
                                         'mut_kinds': ['none', 'write', 'mkdir', 'file2dir']}, 'weight': 1})
     q.append({'name': 'A5c', 'params': {'hist': 'BMB', 'kinds': ['is_dir'], 'modes': ['ok', 'raise_after'], 'mut_paths': ['o/z', 'o/d/z', 'o/d'],
                                         'mut_kinds': ['none', 'write', 'mkdir', 'file2dir']}, 'weight': 1})
+    q.append({'name': 'nested-build', 'params': {}, 'weight': 1})
     q.append({'name': 'S1', 'params': {'hist': 'F'}, 'weight': 1})
     q.append({'name': 'S1', 'params': {'hist': 'BMF', 'mut_paths': ['o/d', 'o/d/g', 'o/z']}, 'weight': 2})
     q.append({'name': 'N3', 'params': {'hist': 'BBC', 'universe': UN3, 'kinds': ['is_dir'], 'roles': ['o']}, 'weight': 3})
@@ -56,7 +58,72 @@ def families(tier):
     ]
 
 
+def nested_builds(eng, P):
+    """Two builds whose lifetimes overlap in one process (a second build, on its own cache and tree, started from inside
+    the first one's root function): the first overwrites a foreign file and later raises - the foreign file is back,
+    whatever the inner build did in between.  Reference-free."""
+    from symx import logic as L
+    from symx.fs import FILE, ABSENT
+    from .world import World
+    from .program import Boom
+    from file_builder import FileBuilder
+    w = World(eng, ['p', 'p/out'], fixed={'o': 'D', 'o/f': 'F'}, sandbox=getattr(eng, 'sandbox', None))
+    try:
+        w.bind()
+        inner_fails = bool(eng.choose('inner_fails', 2))
+        order = eng.choose('order', 2)          # inner build before / after the outer build overwrote the foreign file
+        F, cache2, out2 = w.p('o/f'), w.p('cache2'), w.p('p/out')
+        pre = w.fs.snapshot(w.root)
+
+        def inner_root(b2):
+            b2.build_file(out2, 'g', lambda b3, fn: w.user_write(w.fs, fn, 7))
+            if inner_fails:
+                raise Boom()
+            return 1
+
+        def run_inner():
+            try:
+                FileBuilder.build(cache2, 'n2', inner_root)
+            except Exception:
+                pass                      # the inner build may fail (Boom, or p is a foreign file): its own business
+
+        def root(b):
+            if order == 0:
+                run_inner()
+            b.build_file(F, 'f', lambda b2, fn: w.user_write(w.fs, fn, 8))
+            if order == 1:
+                run_inner()
+            raise Boom()
+
+        try:
+            FileBuilder.build(w.cache, 'n', root)
+            eng.check('C03.outer-build-did-not-raise', False, ('nested-build',))
+        except Boom:
+            pass
+        eng.witness('build-raised')
+        eng.witness('nested-build-overlapped')
+        post = w.fs.snapshot(w.root)
+        sig = ('nested-build', 'inner-fails' if inner_fails else 'inner-commits', 'order%d' % order)
+        a, b_ = pre.get(F), post.get(F)
+        eng.check('C03.overwritten-foreign-file-not-restored', b_ is not None and b_[0] == 'F', sig, info={'after': b_ and b_[0]})
+        if b_ is not None and b_[0] == 'F':
+            eng.check('C03.foreign-bytes-mtime', L.and_(L.eq(a[2], b_[2]), L.eq(a[3], b_[3])), sig)
+        # every other foreign file / directory of the pre-state is untouched as well
+        for p_, s_ in pre.items():
+            if p_ in (F, out2, cache2, w.cache):
+                continue
+            q_ = post.get(p_)
+            eng.check('C03.foreign-file-gone' if s_[0] == 'F' else 'C03.foreign-dir-removed', q_ is not None and q_[0] == s_[0],
+                      sig + (w.rel(p_),), info={'path': w.rel(p_)})
+        eng.check('C03.temp-dir-left', not w.tmp_leftovers(), sig)
+        eng.sample({'family': 'nested-build', 'inner_fails': inner_fails, 'order': order})
+    finally:
+        w.close()
+
+
 def harness(eng, fam, P):
+    if fam == 'nested-build':
+        return nested_builds(eng, P)
     if fam == 'backups':
         # overwritten foreign files are moved aside through FileBackups: at any backup index they must come back
         from .c02 import backups_family
